@@ -23,8 +23,8 @@ Import ListNotations.
 Open Scope list_scope.
 
 (* operators that never apply Value::equals *)
-Definition eqfree (op : binop) : bool :=
-  match op with Equal | NotEqual | DotEqual | DotNotEqual => false | _ => true end.
+Require Blots.proofs.EmitHOOps.
+Notation eqfree := Blots.proofs.EmitHOOps.eqfree.     (* the SAME exclusion as the earlier theorems *)
 
 Section Ops.
   Variable opok : binop -> bool.
@@ -300,13 +300,7 @@ End Ops.
 (* ------------------------------------------------------------------ built-ins *)
 (* the built-ins of EvalInst.builtin_impl proved to respect the relation: the callback-taking ones
    and the pure ones that never apply Value::equals *)
-Definition biok_inst (b : builtin) : bool :=
-  match b with
-  | B_map | B_filter | B_reduce | B_every | B_some
-  | B_abs | B_floor | B_ceil | B_trunc | B_sqrt | B_typeof | B_arity | B_to_bool
-  | B_ugt | B_ult | B_ugte | B_ulte | B_any | B_all => true
-  | _ => false
-  end.
+Notation biok_inst := Blots.proofs.EmitHOOps.biok_inst.
 
 Section Builtins.
   Variable opok : binop -> bool.
